@@ -131,6 +131,27 @@ def model_payload(arg, opts, size_spec, rec):
     return [opts_payload(opts, size_spec), items_of(arg), gt, mt, rec.samples]
 
 
+def oracle_payload(opts, size_spec, x, rec):
+    """the hypotheses of C03_batch_covers for the final working set of a real run"""
+    gt = [[p, s, g] for (p, s), g in rec.groups.items() if g is not None]
+    return [opts_payload(opts, size_spec), x.Cats.extra_letters or '', x.n_stripped > 0, gt, list(x.examples.strings)]
+
+
+def check_oracle_hypotheses(ctx, cases):
+    """cases as for compare_with_model: every recorded group split must satisfy the theorem's oracle hypotheses"""
+    if not ctx.model_ok:
+        return
+    todo = [(case, oracle_payload(opts, size, x, rec)) for (case, arg, opts, size, x, rec) in cases if x.results is not None]
+    outs = ctx.model.call_many(29, [p for _, p in todo])
+    bad = 0
+    for (case, _), o in zip(todo, outs):
+        if o != 1:
+            bad += 1
+            ctx.mismatch('group-split-oracle-hypotheses', case, 'batch_oracle_okb = false', 'splits recorded from re.match')
+    ctx.extra['oracle_hypotheses_checked'] = len(todo)
+    ctx.extra['oracle_hypotheses_failed'] = bad
+
+
 def decode_model(out):
     """(0 (none rex strings freqs passes samples_left last_failures)) | (err)"""
     from lib import dstrs
